@@ -30,10 +30,34 @@ CLAIMED = {
     "C14": (H + " (sequential part: BFS keyed on ring geometry) + " + S + " (concurrent part, brute-force linearizability check of every explored history against the FIFO model)", "Sequential: every operation sequence over {Push, Pop, PopN(1,2,3,1<<20), Len} up to depth 20 (quick) / 34 (thorough) from initial sizes 1..4 with state key (mod, head, tail, len), each return value compared with a slice model. Concurrent: 2 threads x 1-2 operations and 3 threads x 1 operation from 8 start states (empty, full, wrapped, about to grow), all schedules (unbounded search finished); every call/return history checked for linearizability.", "§5 C14"),
     "C15": (I, "All outbound batches of length 1-2 over 3 targets x 6 senders (nil, S1, S2, an equal-valued distinct PID object, a pair differing only in the address/id split) x 7 payloads (three registered types incl. an empty message, a proto value whose Marshal fails, a non-proto value), all batches of length 3 over reduced pools (thorough: full pools, 2.0M batches) and of length 4 over tiny pools, pushed through the real streamWriter.Invoke, generated drpc wrappers, production MarshalVT/UnmarshalVT and streamReader.Receive into recording Processers: same count, order, target, type, payload (proto.Equal) and sender (nil iff sent without); an unserialisable message is dropped alone, nothing delivered in its place, no panic.", "§5 C15"),
     "C16": (I, "Structured envelopes: 4 type-name tables x 3 target tables x 3 sender tables x 0-2 messages whose three indices range over {-1,0,1,2,MaxInt32,MinInt32} (two messages: {-1,0,1} quick, {-1,0,1,MaxInt32} thorough) and data over {valid, garbage, empty}, encoded with the real MarshalVT; byte level: every proper prefix, single-byte deletion and single-byte substitution of 7 seed encodings. Everything UnmarshalVT accepts goes through streamReader.Receive: no panic, deliveries only for messages whose own indices are valid and only to the target/type/sender they name, good messages in front of a bad one are delivered, the node still works afterwards.", "§5 C16"),
-    "C18": (H, "Real Agent behind the real Cluster API (stub provider via Config.WithProvider), deterministic thread schedule, quiescence after each step: all sequences of <=4 (thorough 5) membership snapshots out of 12 (every subset of a 4-member universe containing the observing node, plus lists with duplicate entries; fresh Member objects each time); after every snapshot Members(), the MemberJoinEvent/MemberLeaveEvent multiset since the previous snapshot and HasKind for 4 kinds are compared with a set model.", "§5 C18"),
+    "C18": (H, "Real Agent behind the real Cluster API (stub provider via Config.WithProvider), deterministic thread schedule, quiescence after each step: all sequences of <=4 (thorough 5) membership snapshots out of 16 (every subset of a 4-member universe containing the observing node, lists with duplicate entries, another id on a member's host, a member's id on another host; fresh Member objects each time); after every snapshot Members(), the MemberJoinEvent/MemberLeaveEvent multiset since the previous snapshot and HasKind for 4 kinds are compared with a set model.", "§5 C18"),
     "C19": (H + "; the arrival order of each operation's notifications is an enumerated data choice", "2 (thorough: 3) real engines with real cluster agents in one world, outbound messages captured by a pool Remoter and delivered in every order after each operation (operations run on their own thread so that request/response round trips can complete while they block; timeouts are virtual and fire only when nothing is left to deliver): all histories of <=3 (thorough 4) enabled operations over join / leave / activate (3 kinds, 2 ids, first capable or fixed member) / deactivate / cluster spawn; reference model = membership + global id->host map; Activate result, uniqueness, placement, GetActiveByID/ByKind on every member, registries, purge on leave, topology transfer on join.", "§5 C19"),
     "C20": (H, "Real SelfManaged provider (zeroconf replaced by an inert shim, member-ping ticker fired explicitly, log.Fatal recorded) reporting to a stub agent, outbound messages captured by a pool Remoter: all sequences of <=4 (thorough 5) events out of 12 (handshake from 3 peers, 4 member lists incl. duplicates and self, unreachable report for each peer address and for an address that never was a member, ticker); after each event the reference member set is compared with the lists reported to the agent, the handshake reply and its addressee, the ping targets, and no ActorRestartedEvent for the provider.", "§5 C20"),
     "C17": (S + " on an in-memory transport model of TCP+drpc, bound to the implementation by a conformance replay of the same scenarios over real loopback TCP; the Start/Stop clause is decided by exhaustive enumeration of call sequences on the real listener", "Controlled leg: two real engines with the real remote.Remote, streamRouter, streamWriter (dial retry loop with virtual back-off), streamReader, serializer and generated drpc glue in one scheduler world; only net / drpcconn / drpcserver are replaced by an in-memory FIFO transport. 1-3 sender threads x 1-3 messages to 1-2 actors on the peer (with/without sender), an actor sender, a request/response pair, dial-failure sequences down^j up for j in {0,1,2,3,6}: exactly-once, right target and sender, per-sender order, reply reaches the requester, one RemoteUnreachableEvent per failed connection attempt, conservation (delivered xor dead-lettered), fresh attempt after the episode; deviation bound 1-2. Conformance leg: every scenario variant is re-run on the uninstrumented code over real TCP and its canonical observation record must be one the controlled leg produced; all Start/Stop/Stop+Wait/dial-probe sequences of length <=4 on a real listener.", "§5 C17"),
+}
+
+# coverage added after the first build (seed rounds 2 and 3), appended to the level text
+ADDED = {
+    "C01": " Also: senders that start during a restart (restart-late-senders).",
+    "C02": " Also: a build with defaultThroughput scaled to 3, a busy worker that uses up its quota while senders keep sending (hand-off to the successor worker); free-running race-detector pass.",
+    "C03": " Also: an actor whose first start fails in Initialized/Started on the spawning goroutine (the inbox is opened by the start that succeeds); the throughput hand-off (defaultThroughput scaled to 3).",
+    "C04": " Also: receivers that panic in their Stopped handler; a middleware in front of crashing histories.",
+    "C05": " Also: lifecycle handlers that panic; a receiver that panics again while it is told Stopped after a crash (D26); panics with *actor.InternalError (both readings of its budget exemption accepted); middleware in front of the restart.",
+    "C06": " Also: the budget-exhausting panic followed by a panic in the final Stopped handler; InternalError panics around the exhaustion; a parent that re-spawns its fixed-id child in every Started and takes it down when it exceeds its budget.",
+    "C07": " Also: a watcher thread per stop context that records, the moment the context is done, whether the target is still registered / has handled Stopped; a stop request issued by a second party while the target is inside its Stopped handler; two stop requests; crashes behind a graceful pill; a pill behind the budget-exhausting panic.",
+    "C08": " Also: a leaf that panics inside its final Stopped handler, a tree spawned WithContext(cancelled), a shutdown that reaches a child already inside its Stopped handler; the oracle compares the moment each Stopped handler RETURNED with the parent's Stopped; a child that dies during its own start.",
+    "C09": " Also: a thread that spawns and poisons an unrelated actor while the sends fail (with sync.RWMutex modelled as writer-preferring: no sender may block), a monitor subscribed twice through equal but distinct PIDs, engines with a remote, a subscriber with a foreign address.",
+    "C10": " Also: stop, wait for the context, spawn the same id again at once while 0-2 other pending stop requests are still being acknowledged; respawn racing the shutdown of an actor with children; free-running race-detector pass on the registry.",
+    "C11": " Also: a second request to a silent actor right after a timed-out one (nothing stale may leak into it; sync.Pool modelled deterministically), replies racing the timeout.",
+    "C12": " Also: a subscriber that dies between two broadcasts with others behind it in the set; an EngineRemoteMissingEvent (sender-less message to a foreign address) arrives once and leaves the subscriptions intact.",
+    "C13": " Also: the InternalError restart path, the chain given as two WithMiddleware options, a second actor with a chain of its own spawned right afterwards.",
+    "C14": " Also: full buffers as start states of the concurrent part (a PopN frees slots the next Push reuses without growing).",
+    "C15": " Also: sender tables with the same id on different addresses, two batches over one connection.",
+    "C16": " Also: envelopes addressed to the node's own stream writer for the sending peer (real streamWriter behind its real inbox, D27); unknown fields of every wire type incl. (nested, unclosed) groups and lengths up to 2^63-1 and overflowing, in front of, behind and inside a valid envelope; Envelope values with nil table entries handed to the reader directly; 2-3 concurrent inbound streams.",
+    "C17": " Also: every message with a sender, the same id on two addresses alternating; a second peer; restart of the receiving node; the lifecycle sequences attempt the refused second Start with another engine and then check that the remote still serves the first one.",
+    "C18": " The universe also has another id on an existing member's host and an existing id on another host (16 snapshots). Free-running race-detector pass on a real cluster node.",
+    "C19": " Also: select functions that return an equal copy of the chosen member; kind-less members; activations present before a join. Free-running race-detector pass on a real cluster node.",
+    "C20": " Also: every member list handed out (agent report, handshake reply) is re-read at the end of the history and must not have changed. Free-running race-detector pass on a real cluster node (handshakes and unreachable reports concurrently).",
 }
 
 NOT_YET = "check not built yet in this session (planned: see DESIGN.md §5); not claimed until it runs green on the unchanged tree"
@@ -46,6 +70,7 @@ def main():
         pid = p["id"]
         if pid in CLAIMED:
             tech, text, ref = CLAIMED[pid]
+            text += ADDED.get(pid, "")
             checks.append({
                 "property_id": pid,
                 "quick_cmd": "./check quick %s" % pid,
